@@ -347,6 +347,18 @@ def build_indices_rules(ctx, tk, rule):
         if parts[2] != (1, None):
             ok = False
             detail.append("scatter positions are shifted %s, expected [1:]" % (parts[2],))
+        # `ends` is the position after the last visited cell, whatever the stride: the jump to the next row's first cell is
+        # next start - previous end + 1 (a constant one, not the stride)
+        for a in alts(val):
+            if a.k == "bin" and a.a[0] == "+":
+                c = a.a[2] if a.a[1].k == "bin" else a.a[1]
+                if c.k == "const":
+                    if c.a[0] != 1:
+                        ok = False
+                        detail.append("the jump adds %r, expected 1" % (c.a[0],))
+                elif any(x.k in ("param", "ifexp") or (x.k == "attr" and x.a[1] in ("col_step", "_step")) for x in walk(c)):
+                    ok = False
+                    detail.append("the jump adds %s (the stride) where `ends` already is one past the last visited cell: expected + 1" % (c,))
         if set(seen) != set(want):
             ctx.unknown(rule, f, "row-to-row jumps use next start and previous end of the same non-empty rows", node=n.ast, engine="E6")
         else:
@@ -587,6 +599,40 @@ def col_slice_model(ctx, tk, rule, Ns=(1, 2, 3), col_steps=(1, 2, -1)):
             ctx.decide(rule, m, what % (N, C), True if (ok and not unk) else None, "%d of %d cells of the selector partition could not be evaluated exactly" % (unk, ok + unk),
                        key="model:N=%d,C=%d" % (N, C), engine="E9", detail_ok="%d cells of the selector partition agree, %d undecided" % (ok, unk))
     return totals
+
+
+def ends_model(ctx, tk, rule, Ns=(1, 2, 3), col_steps=(1, 2, -1, -2)):
+    """E9: `RaggedView2.ends` of a row of N >= 1 cells starting at s with column stride C is the position after the last *visited*
+    cell, s + (N - 1) * C + 1 - that is what the index builder (`build_indices`: next start minus previous end plus one) consumes.
+    The property is evaluated abstractly for N in 1..3 and C in {1, 2, -1, -2}; any formula with these values holds"""
+    from .absint import Interp, Iv
+    cls = ctx.program.cls("raggedshape.RaggedView2")
+    m = cls.lookup("ends")
+    what = "ends of a strided row view is the position after the last visited cell (start + (N - 1) * stride + 1)"
+    if m is None:
+        ctx.unknown(rule, "raggedshape.RaggedView2", what, "no `ends` found", key="ends-model", engine="E9")
+        return
+    bad, ok, unk = [], 0, 0
+    for N in Ns:
+        for C in col_steps:
+            for s0 in (0, 7):
+                I = Interp(ctx, cls, {"lengths": Iv(N, N), "starts": Iv(s0, s0), "col_step": Iv(C, C), "len:lengths": Iv(1, float("inf"))})
+                try:
+                    res = I.run(m, [], {})
+                except RecursionError:
+                    res = None
+                want = s0 + (N - 1) * C + 1
+                v = I.num(res) if isinstance(res, Iv) else None
+                if v is None:
+                    unk += 1
+                elif v == (want, want):
+                    ok += 1
+                elif v[0] > want or v[1] < want:
+                    bad.append("N=%d, stride %d, start %d: ends is %s, the index builder expects %d" % (N, C, s0, "%d" % v[0] if v[0] == v[1] else "in [%s, %s]" % v, want))
+                else:
+                    unk += 1
+    ctx.decide(rule, m, what, False if bad else (True if (ok and not unk) else None), "; ".join(bad[:3]), key="ends-model", engine="E9",
+               detail_ok="%d (N, stride, start) cases agree" % ok)
 
 
 def scalar_column_is_python_int(ctx, tk, rule):
